@@ -743,6 +743,12 @@ class C09(Prop):
             for a in link_args:
                 if os.path.join(root, a) in obs["msg"]:
                     failures.append((a, "symlink under the error policy"))
+        # ... and, however the tool words or raises it, the FIRST symlink argument met under the error policy is a
+        # failure on that file (later ones are not reached on this tree: listed finding D12)
+        if policy == "error" and not bx_fired and not rejected:
+            live_links = [a for a in link_args if facts[a].get("isfile")]
+            if live_links and not any(f[0] == live_links[0] for f in failures):
+                failures.append((live_links[0], "symlink under the error policy"))
         generic = ("EOFError" in errtext) or ("UnicodeDecodeError" in errtext)
         if rejected:
             if obs["rc"] == 0:
